@@ -26,14 +26,15 @@ from ..core import pool_map
 MODULE = "cell/Geometry.tla"
 TOL = 1e-9
 S3 = math.sqrt(3.0)
-DEVS = ["RectangleContainmentIgnoresRotation", "BorderPointTwoNearestVertices", "LayoutSkipsCentring",
-        "Sec3SetPosKeepsSectors", "Sec3SetRadiusKeepsCentres"]
+DEVS = ["RectangleContainmentIgnoresRotation", "BorderPointTwoNearestVertices", "RectanglePosSetterKeepsCorners",
+        "LayoutSkipsCentring", "Sec3SetPosKeepsSectors", "Sec3SetRadiusKeepsCentres"]
 INVS = ["TypeOK", "VertexLaws", "ContainmentAgrees", "ContainmentLaws", "ZAgreesWithQ", "BorderAgrees", "BorderLaws",
-        "LayoutLaws", "Sec3NoOverlap", "DistLaws", "WrapLaws", "Sec3Fresh"]
-ACTIONS = ["Contain", "Border", "Layout", "DistMat", "Wrap", "Sec3New", "Sec3SetPos", "Sec3SetRot", "Sec3SetRad",
+        "LayoutLaws", "Sec3NoOverlap", "DistLaws", "WrapLaws", "MutFresh"]
+ACTIONS = ["Contain", "Border", "Layout", "DistMat", "Wrap", "MutNew", "MutSetPos", "MutSetRot", "MutSetRad",
            "Place", "PlaceCl", "PProc"]
 F_RECT = "RectangleContainmentIgnoresRotation"
 F_BORDER = "BorderPointTwoNearestVertices"
+F_MOVE = "RectanglePosSetterKeepsCorners"
 
 
 # ----------------------------------------------------------------------------- Q(sqrt3) literals
@@ -77,11 +78,11 @@ PFAR = pt(3, 2)
 
 
 def model(ops, shapes=(), rots=(0,), G=4, clusters=(), crots=(0,), ucells=(1,), uangles=(0,), urel=(),
-          secalpha=None, rel=(), dev=(), emit=True, invariants=INVS):
-    secalpha = secalpha or dict(pos=[P0], r=[q(1)], rot=[0])
+          mutalpha=None, rel=(), dev=(), emit=True, invariants=INVS):
+    mutalpha = mutalpha or dict(base=[dict(kind="hex", w=Q0, h=Q0)], pos=[P0], r=[q(1)], rot=[0])
     defs = {"Ops": tlc.tla(set(ops)), "Shapes": tlc.tla(list(shapes)), "Rots": tlc.tla(set(rots)),
             "Clusters": tlc.tla(list(clusters)), "CRots": tlc.tla(set(crots)), "UCells": tlc.tla(list(ucells)),
-            "UAngles": tlc.tla(list(uangles)), "URel": tlc.tla(list(urel)), "SecAlpha": tlc.tla(secalpha),
+            "UAngles": tlc.tla(list(uangles)), "URel": tlc.tla(list(urel)), "MutAlpha": tlc.tla(mutalpha),
             "RelCases": tlc.tla(list(rel)), "Dev": tlc.tla({k: (k in dev) for k in DEVS})}
     cfg = tlc.cfg_text(constants={"G": str(G)}, defs=defs, invariants=invariants,
                        action_constraints=["Emit"] if emit else [])
@@ -527,68 +528,123 @@ def rc_pproc(e, seed):
     return c["n"], []
 
 
-# ----------------------------------------------------------------------------- Cell3Sec machine
-def sec3_path(job):
-    """job = (secalpha, edges, seed) -> (steps_ok, problems)"""
+# ----------------------------------------------------------------------------- setter machine
+def _mut_new(alpha, call):
+    from pyphysim.cell import shapes, cell
+    b = alpha["base"][call[1] - 1]
+    pos, r, rot = pc(alpha["pos"][call[2] - 1]), qf(alpha["r"][call[3] - 1]), alpha["rot"][call[4] - 1]
+    k = b["kind"]
+    if k == "hex":
+        return cell.Cell(pos, r, 3, rot)
+    if k == "sec3":
+        return cell.Cell3Sec(pos, r, 3, rot)
+    if k == "square":
+        return cell.CellSquare(pos, qf(b["w"]), 3, rot)
+    if k == "rect":
+        hw, hh = qf(b["w"]) / 2, qf(b["h"]) / 2
+        return shapes.Rectangle(pos - complex(hw, hh), pos + complex(hw, hh), rot)
+    if k == "circle":
+        return shapes.Circle(pos, r)
+    raise ValueError(k)
+
+
+def mut_path(job):
+    """job = (alpha, edges, seed) -> (steps_ok, problems): one history of setter calls on a real object"""
     from pyphysim.cell import cell
     alpha, edges, seed = job
     np.random.seed(seed)
     obj = None
     okc = 0
+    moved = False
     for i, e in enumerate(edges):
-        call = e["post"]["call"]
-        out = e["out"]
+        post, out = e["post"], e["out"]
+        call = post["call"]
+        kind = post["kind"]
+        is_cell = kind in ("hex", "square", "sec3")
+        what = None
         try:
-            moved_users = None
+            users_before = None
             if call[0] == "new":
-                obj = cell.Cell3Sec(pc(alpha["pos"][call[1] - 1]), qf(alpha["r"][call[2] - 1]), 3, alpha["rot"][call[3] - 1])
+                obj = _mut_new(alpha, call)
+                moved = False
             elif call[0] == "pos":
-                obj.delete_all_users()
-                obj.add_random_users(3)
+                if is_cell:
+                    # users well inside the cell (relative coordinates) have to move with it
+                    obj.delete_all_users()
+                    for rel in (0.1 + 0.1j, -0.2j, -0.15 + 0.05j):
+                        obj.add_user(cell.Node(rel))
+                    users_before = [u.pos - obj.pos for u in obj.users]
+                moved = moved or not close(obj.pos, pc(alpha["pos"][call[1] - 1]))
                 obj.pos = pc(alpha["pos"][call[1] - 1])
-                moved_users = [u.pos for u in obj.users]
             elif call[0] == "rot":
                 obj.rotation = alpha["rot"][call[1] - 1]
             elif call[0] == "rad":
                 obj.radius = qf(alpha["r"][call[1] - 1])
-            what = None
-            if not verts_equal(obj, out["verts"]):
-                what = "outline differs from a fresh Cell3Sec with the current position/radius/rotation"
-            post = e["post"]
-            if what is None and not (close(obj.pos, pc(post["pos"])) and close(obj.radius, qf(post["r"])) and obj.rotation == post["rot"]):
+            if not close(obj.pos, pc(post["pos"])) or obj.rotation != post["rot"] or \
+                    (kind in ("hex", "circle", "sec3") and not close(obj.radius, qf(post["r"]))):
                 what = "pos/radius/rotation getters do not return what was set"
-            if what is None and moved_users is not None:
-                V = [pc(p) for p in out["verts"]]
-                if len(moved_users) != 3 or not all(inside_f(V, u) for u in moved_users):
-                    what = "users did not move with the cell (they lie outside after the move)"
+            if what is None and not verts_equal(obj, out["verts"]):
+                what = "vertices differ from a fresh object with the current position/size/rotation"
             if what is None:
+                g = int(round((math.sqrt(len(out["res"])) - 1) / 2))
+                gw = 2 * g + 1
+                for n, code in enumerate(out["res"]):
+                    if code == 2:
+                        continue
+                    p = complex((n // gw - g) / 2.0, (n % gw - g) / 2.0)
+                    if bool(obj.is_point_inside_shape(p)) != (code == 1):
+                        what = f"is_point_inside_shape({p}) = {code != 1}, a fresh object says {code == 1}"
+                        break
+            if what is None and users_before is not None:
+                V = [pc(p) for p in out["verts"]]
+                us = [u.pos for u in obj.users]
+                if len(us) != 3 or not all(close(u - obj.pos, w) for u, w in zip(us, users_before)):
+                    what = "users did not move with the cell"
+                elif not all(inside_f(V, u) for u in us):
+                    what = "users lie outside the cell after the move"
+            if what is None and kind == "sec3":
                 # sectors: observable through random placement in a sector (rel)
                 obj.delete_all_users()
                 for j in (1, 2, 3):
                     obj.add_random_users_in_sector(2, j, None, 0.3)
                     V = [pc(p) for p in out["secv"][j - 1]]
                     us = [u.pos for u in obj.users[-2:]]
-                    ctr = pc(out["secc"][j - 1])
+                    ctr = pc(out["store"]["secc"][j - 1])
                     if not all(inside_f(V, u) for u in us):
                         what = f"users placed in sector {j} lie outside that sector"
                         break
-                    if not all(abs(u - ctr) >= 0.3 * qf(out["secr"]) - TOL for u in us):
+                    if not all(abs(u - ctr) >= 0.3 * qf(out["store"]["secr"]) - TOL for u in us):
                         what = f"users placed in sector {j} are closer to its centre than requested"
                         break
                 obj.delete_all_users()
-            if what is None:
                 secs = [getattr(obj, n, None) for n in ("_sec1", "_sec2", "_sec3")]
-                if all(x is not None for x in secs):  # private cross-check, skipped when absent
+                if what is None and all(x is not None for x in secs):  # private cross-check, skipped when absent
+                    st = out["store"]
                     for j, sc in enumerate(secs):
-                        if not (close(sc.pos, pc(out["secc"][j])) and close(sc.radius, qf(out["secr"])) and sc.rotation == out["secrot"]):
+                        if not (close(sc.pos, pc(st["secc"][j])) and close(sc.radius, qf(st["secr"])) and sc.rotation == st["secrot"]):
                             what = f"sector {j + 1} is stale (centre {sc.pos:.4f}, radius {sc.radius:.4f}, rotation {sc.rotation})"
                             break
         except Exception as ex:
             what = f"raised {type(ex).__name__}: {ex}"
         if what:
-            return okc, [bad(f"Cell3Sec after {[x['post']['call'] for x in edges[:i + 1]]}: {what}")]
+            fid = F_MOVE if (kind in ("rect", "square") and moved) else None
+            if fid is None and kind in ("rect", "square") and post["rot"] % (90 if kind == "square" else 180) != 0 \
+                    and "is_point_inside_shape" in what:
+                fid = F_RECT
+            name = type(obj).__name__ if obj is not None else kind
+            return okc, [bad(f"{name} after {[_call_text(alpha, x['post']['call']) for x in edges[:i + 1]]}: {what}", fid)]
         okc += 1
     return okc, []
+
+
+def _call_text(alpha, call):
+    if call[0] == "new":
+        return f"new(pos={pc(alpha['pos'][call[2] - 1])}, r={qf(alpha['r'][call[3] - 1])}, rotation={alpha['rot'][call[4] - 1]})"
+    if call[0] == "pos":
+        return f"pos={pc(alpha['pos'][call[1] - 1])}"
+    if call[0] == "rot":
+        return f"rotation={alpha['rot'][call[1] - 1]}"
+    return f"radius={qf(alpha['r'][call[1] - 1])}"
 
 
 # ----------------------------------------------------------------------------- orchestration
@@ -626,36 +682,77 @@ def plan(ctx):
     return runs
 
 
-def sec_alpha(th):
+MUT_BASE = [dict(kind="hex", w=Q0, h=Q0), dict(kind="sec3", w=Q0, h=Q0), dict(kind="square", w=q(5, 0, 2), h=Q0),
+            dict(kind="rect", w=q(5, 0, 2), h=q(3, 0, 2)), dict(kind="circle", w=Q0, h=Q0)]
+
+
+def mut_alpha(th):
     if th:
-        return dict(pos=[P0, P1, P3], r=[q(1), q(3, 0, 2)], rot=[0, 30, -90, 240, 690])
-    return dict(pos=[P0, P1], r=[q(1), q(3, 0, 2)], rot=[0, 30, -90])
+        return dict(base=MUT_BASE, pos=[P0, P1, P3], r=[q(3, 0, 2), q(2)], rot=[0, 30, -90, 240, 690])
+    return dict(base=MUT_BASE, pos=[P0, P1], r=[q(3, 0, 2), q(2)], rot=[0, 30, -90])
+
+
+def mut_runs(th):
+    """one TLC process per kind of object (the machine of each kind is explored completely)"""
+    a = mut_alpha(th)
+    return [(f"mut/{b['kind']}", dict(ops={"mut"}, mutalpha=dict(a, base=[b]), G=3)) for b in a["base"]]
 
 
 DEV_MODELS = {
     F_RECT: ("ContainmentAgrees", dict(ops={"contain"}, shapes=[shape("rect", P0, w=q(5, 0, 2), h=q(3, 0, 2))], rots=[0, 30], G=3)),
     F_BORDER: ("BorderAgrees", dict(ops={"border"}, shapes=[shape("rect", P0, w=q(3), h=q(5, 0, 4), rad=q(13, 0, 8))], rots=[0], G=1)),
     "LayoutSkipsCentring": ("LayoutLaws", dict(ops={"layout"}, clusters=[cluster("simple", 3, q(1), P1)], crots=[0])),
-    "Sec3SetPosKeepsSectors": ("Sec3Fresh", dict(ops={"sec3"}, secalpha=dict(pos=[P0, P1], r=[q(1)], rot=[0]))),
-    "Sec3SetRadiusKeepsCentres": ("Sec3Fresh", dict(ops={"sec3"}, secalpha=dict(pos=[P0], r=[q(1), q(2)], rot=[30]))),
+    F_MOVE: ("MutFresh", dict(ops={"mut"}, G=1, mutalpha=dict(base=[MUT_BASE[2]], pos=[P0, P1], r=[q(1)], rot=[0]))),
+    "Sec3SetPosKeepsSectors": ("MutFresh", dict(ops={"mut"}, G=1, mutalpha=dict(base=[MUT_BASE[1]], pos=[P0, P1], r=[q(1)], rot=[0]))),
+    "Sec3SetRadiusKeepsCentres": ("MutFresh", dict(ops={"mut"}, G=1, mutalpha=dict(base=[MUT_BASE[1]], pos=[P0], r=[q(1), q(2)], rot=[30]))),
 }
 
 
 def _run_model(kw, **tk):
+    """one TLC process.  The result does not depend on the tree under test, so repeated runs of the check
+    against several trees (mutation testing) may share it: VERIF_C19_CACHE=<dir> stores the parsed result
+    keyed by configuration and specification text (development aid; unset in the registered commands)."""
+    import hashlib
+    import os
+    import pickle
     cfg, defs = model(**kw)
-    return tlc.run(MODULE, cfg, defs=defs, **tk)
+    cache = os.environ.get("VERIF_C19_CACHE")
+    if cache:
+        h = hashlib.md5()
+        for f in ("cell/Geometry.tla", "lib/QR3.tla", "lib/Emit.tla"):
+            h.update(open(os.path.join(tlc.SPEC, f), "rb").read())
+        h.update(cfg.encode())
+        h.update(repr(sorted(defs.items())).encode())
+        path = os.path.join(cache, h.hexdigest() + ".pkl")
+        if os.path.exists(path):
+            return pickle.load(open(path, "rb"))
+    r = tlc.run(MODULE, cfg, defs=defs, **tk)
+    if cache:
+        os.makedirs(cache, exist_ok=True)
+        r.out = ""
+        pickle.dump(r, open(path + ".tmp", "wb"))
+        os.replace(path + ".tmp", path)
+    return r
 
 
-def _coverage_run():
-    """small instance with -coverage: every action must fire (coverage on the big instances is too slow)"""
-    kw = dict(ops={"contain", "border", "layout", "distmat", "wrap", "sec3", "place", "pproc"},
-              shapes=[shape("hex", P0, r=q(1), rad=q(1))], rots=[0], G=1,
-              clusters=[cluster("simple", 19, q(1), P0)], crots=[0], ucells=[1], uangles=[0],
-              secalpha=dict(pos=[P0, P1], r=[q(1), q(2)], rot=[0, 30]),
-              rel=[dict(what="place", s=shape("hex", P0, r=q(1)), rot=0, ratio=q(0), users=1, sector=0),
-                   dict(what="placecl", cl=cluster("simple", 3, q(1), P0), rot=0, id=1, ratio=q(0), users=1),
-                   dict(what="pproc", s=shape("circle", P0, r=q(1)), n=1, rmin=q(0))], emit=False)
-    return _run_model(kw, coverage=True)
+OP_ACTION = {"contain": "Contain", "border": "Border", "layout": "Layout", "distmat": "DistMat", "wrap": "Wrap",
+             "place": "Place", "placecl": "PlaceCl", "pproc": "PProc"}
+CALL_ACTION = {"new": "MutNew", "pos": "MutSetPos", "rot": "MutSetRot", "rad": "MutSetRad"}
+
+
+def _count_actions(ctx, emitted):
+    """TLC's -coverage does not terminate in reasonable time on this module (cost model x recursive
+    operators: > 300 s on a 30-state instance), so the firing of every action is established from the
+    emitted transitions: each action stamps c.op / c.call."""
+    for e in emitted:
+        post = e["post"]
+        a = CALL_ACTION[post["call"][0]] if post["op"] == "mut" else OP_ACTION[post["op"]]
+        ctx.actions[a] = ctx.actions.get(a, 0) + 1
+
+
+def _par():
+    import os
+    return max(1, min(12, int(os.environ.get("VERIF_PROCS", "0") or 0) or 12))
 
 
 def _dev_run(name):
@@ -677,21 +774,21 @@ def run(ctx):
         "wrapped cells are observed through Cluster._wrapped_cells (no public accessor); skipped if absent",
     ]
     runs = plan(ctx)
-    alpha = sec_alpha(th)
-    with ThreadPoolExecutor(14) as ex:
+    mruns = mut_runs(th)
+    with ThreadPoolExecutor(_par()) as ex:
         futs = [(label, kw, ex.submit(_run_model, kw)) for label, kw in runs]
-        fsec = ex.submit(_run_model, dict(ops={"sec3"}, secalpha=alpha))
-        fcov = ex.submit(_coverage_run)
+        fmut = [(label, kw, ex.submit(_run_model, kw)) for label, kw in mruns]
         fdev = [ex.submit(_dev_run, d) for d in DEVS]
         results = [(label, kw, f.result()) for label, kw, f in futs]
-        rsec = fsec.result()
-        rcov = fcov.result()
+        mres = [(label, kw, f.result()) for label, kw, f in fmut]
         devres = [f.result() for f in fdev]
     # ---- stage M bookkeeping
     for label, kw, r in results:
         ctx.account(r, MODULE, label)
-    ctx.account(rsec, MODULE, "sec3")
-    ctx.account(rcov, MODULE, "coverage")
+        _count_actions(ctx, r.emitted)
+    for label, kw, r in mres:
+        ctx.account(r, MODULE, label)
+        _count_actions(ctx, r.emitted)
     ctx.require_actions(ACTIONS)
     for name, inv, r in devres:
         if r.violated != inv:
@@ -725,23 +822,34 @@ def run(ctx):
         smp = next((e for e, _ in jobs if e["post"]["op"] == op), None)
         if smp:
             ctx.sample({"op": op, "case": smp["post"], "expected": _trim(smp["out"])}, limit=8)
-    # ---- stage R: Cell3Sec machine (complete graph, every transition + walks)
-    g = graph.Graph(rsec.emitted, label=lambda e: graph.key(e["post"]["call"]))
-    root = g.roots()[0]
+    # ---- stage R: setter machines (complete graph per kind of object, every transition + walks)
     rng = random.Random(ctx.seed)
-    paths = g.transition_cover(root, max_len=10, rng=rng)
-    paths += g.random_walks(root, 400 if th else 40, 8, rng)
-    pjobs = [(alpha, g.path_edges(p), (ctx.seed * 104729 + i) % (2 ** 31)) for i, p in enumerate(paths)]
-    pres = pool_map(sec3_path, pjobs, chunksize=max(1, len(pjobs) // 64))
+    pjobs = []
+    gstat = {}
+    for label, kw, r in mres:
+        g = graph.Graph(r.emitted, label=lambda e: graph.key(e["post"]["call"]))
+        root = g.roots()[0]
+        paths = g.transition_cover(root, max_len=10, rng=rng)
+        paths += g.random_walks(root, 150 if th else 12, 8, rng)
+        for p in paths:
+            pjobs.append((kw["mutalpha"], g.path_edges(p), (ctx.seed * 104729 + len(pjobs)) % (2 ** 31)))
+        for _, _, e in g.edges:
+            ctx.distinct.add("mut" + graph.key(e["pre"]) + graph.key(e["post"]["call"]))
+        gstat[label] = {"states": len(g.nodes), "transitions": len(g.edges), "paths": len(paths)}
+    pres = pool_map(mut_path, pjobs, chunksize=max(1, len(pjobs) // 64))
     for job, (okc, probs) in zip(pjobs, pres):
         ctx.ok(n=okc)
         ctx.trace_done()
         for p in probs[:1]:
-            ctx.violation(p["what"], {"kind": "sec3", "alpha": alpha, "path": job[1], "seed": job[2]})
-    for _, _, e in g.edges:
-        ctx.distinct.add("sec3" + graph.key(e["pre"]) + graph.key(e["post"]["call"]))
-    ctx.notes["sec3_paths_replayed"] = len(paths)
-    ctx.notes["sec3_graph"] = {"states": len(g.nodes), "transitions": len(g.edges)}
+            case = {"kind": "mut", "alpha": job[0], "path": job[1], "seed": job[2]}
+            if p["fid"]:
+                ctx.finding(p["fid"], p["what"], case)
+            else:
+                ctx.violation(p["what"], case)
+    ctx.notes["setter_machines"] = gstat
+    if mres:
+        e = mres[1][2].emitted[len(mres[1][2].emitted) // 2]
+        ctx.sample({"op": "mut", "pre": e["pre"], "post": e["post"], "expected": _trim(e["out"])}, limit=8)
     ctx.exhaustive = True
     # ---- stage T
     from . import c19_trace
@@ -760,6 +868,8 @@ def _expected_cases(kw):
         n += len(kw["clusters"]) * len(set(kw["crots"]))
     if "place" in ops:
         n += len(kw["rel"])
+    if "mut" in ops:
+        n = 0
     return n
 
 
@@ -777,8 +887,8 @@ def _trim(o, limit=6):
 
 def replay(ctx, data):
     c = data["case"]
-    if c.get("kind") == "sec3":
-        okc, probs = sec3_path((c["alpha"], c["path"], c["seed"]))
+    if c.get("kind") == "mut":
+        okc, probs = mut_path((c["alpha"], c["path"], c["seed"]))
     elif c.get("kind") == "trace":
         from . import c19_trace
         return c19_trace.replay(ctx, data)
